@@ -13,6 +13,7 @@ Definition enc_err (x : err) : list Z :=
   | EValue => [1] | EKey => [2] | EIndex => [3] | EType => [4]
   | EAasd n => [100 + zn n]
   | ENoMethod => [9]
+  | EIter => [5]
   | EInternal => [99]
   end.
 Definition enc_out (o : outcome) : list Z :=
